@@ -41,6 +41,18 @@ theorem mapFieldMB_complete (f : FieldD) (c : Nat) (h : MapFieldM f c) : mapFiel
   unfold mapFieldMB
   simp [h.ty, mapKeyTypeB_eq, h.kty, h.vty, h.vk, h.num, h.rep, h.opt, h.grp, h.nw]
 
+theorem timesFieldB_complete (f : FieldD) (isDur : Bool) (h : TimesField f isDur) : timesFieldB f isDur = true := by
+  unfold timesFieldB
+  simp [h.ty, h.nw, h.kind, h.num, h.rep, h.opt, h.grp]
+
+theorem mapFieldTB_complete (f : FieldD) (isDur : Bool) (h : MapFieldT f isDur) : mapFieldTB f isDur = true := by
+  unfold mapFieldTB
+  simp [h.ty, mapKeyTypeB_eq, h.kty, h.vty, h.vk, h.num, h.rep, h.opt, h.grp, h.nw]
+
+theorem timeValOk_all (isDur : Bool) (xs : List Val) (h : ∀ x ∈ xs, timeValOk isDur x = true) :
+    xs.all (timeValOkB isDur) = true := by
+  simpa [List.all_eq_true, timeValOkB_eq] using h
+
 theorem subFieldAnyB_complete (f : FieldD) (c : Nat) (h : SubField f c) : subFieldAnyB f = true := by
   unfold subFieldAnyB
   rw [h.kind]
@@ -261,6 +273,8 @@ theorem slotOkB_complete (S : Schema) (f : FieldD) : ∀ (v : Val), SlotOk S f v
     | wrap _ w _ hf hv => simp [scalarOk] at hv
     | subs _ c _ hf hr hm =>
       simp [hf.kind, subFieldB_complete f c hf, hr, msgsOkB_complete S c xs hm]
+    | tss _ _ hf hv => simp [timesFieldB_complete f false hf, timeValOk_all false xs hv]
+    | durs _ _ hf hv => simp [timesFieldB_complete f true hf, timeValOk_all true xs hv]
   | .ts us, h => by
     rw [slotOkB]
     cases h with
@@ -283,6 +297,14 @@ theorem slotOkB_complete (S : Schema) (f : FieldD) : ∀ (v : Val), SlotOk S f v
     | mapM _ c _ _ hf hl hk hm hkd =>
       simp [hf.vk, mapFieldMB_complete f c hf, hl, scalarOk_all _ _ hk, msgsOkB_complete S c vs hm,
         keysDistinctB_complete ks hkd]
+    | mapT _ isDur _ _ hf hl hk hv hkd =>
+      cases isDur with
+      | false =>
+        simp [mapFieldTB_complete f false hf, hl, scalarOk_all _ _ hk, timeValOk_all false vs hv,
+          keysDistinctB_complete ks hkd]
+      | true =>
+        simp [mapFieldTB_complete f true hf, hl, scalarOk_all _ _ hk, timeValOk_all true vs hv,
+          keysDistinctB_complete ks hkd]
   | .int i, h => by simp only [slotOkB]; exact slotOkB_plain_complete S f (.int i) rfl h
   | .bool b, h => by simp only [slotOkB]; exact slotOkB_plain_complete S f (.bool b) rfl h
   | .f32 b, h => by simp only [slotOkB]; exact slotOkB_plain_complete S f (.f32 b) rfl h
